@@ -264,6 +264,15 @@ def corpus():
              ("set", b"\x80", b"x" * 40), ("delete_subtrie", b"\x80\x00"), ("state",), ("delete", b"\x80"), ("state",)]]
 
 
+def subclass_check(ops, outs):
+    """the same history with keys and values that are instances of a bytes subclass gives the same results and roots"""
+    alt = BX.run_history(C.subify(list(ops)))[0]
+    if alt != outs:
+        i = next((j for j, (a, b) in enumerate(zip(alt, outs)) if a != b), None)
+        return f"history behaves differently when keys / values are instances of a bytes subclass (step {i}: {alt[i]!r} vs {outs[i]!r})"
+    return None
+
+
 def check(tier, seed):
     R = C.Reporter("C12", tier, seed)
     R.gate = C.proof_gate("C12")
@@ -278,7 +287,7 @@ def check(tier, seed):
         outs, t = BX.run_history(ops)
         R.evaluations += 1
         bad, cps, history = oracle(ops, outs)
-        bad = bad or refusal_unchanged(ops, outs) or old_roots_readable(t, history)
+        bad = bad or refusal_unchanged(ops, outs) or old_roots_readable(t, history) or subclass_check(ops, outs)
         if not bad and ci % 3 == 0:
             # the root_node property (getter / setter), after the history
             tail, exp = root_node_tail(rng, ops)
@@ -294,7 +303,7 @@ def check(tier, seed):
             def still(o):
                 oo, tt = BX.run_history(o)
                 b, c_, h_ = oracle(o, oo)
-                return (b or refusal_unchanged(o, oo) or old_roots_readable(tt, h_)) is not None
+                return (b or refusal_unchanged(o, oo) or old_roots_readable(tt, h_) or subclass_check(o, oo)) is not None
             small = C.shrink_list(ops, still)
             R.spec_violations.append((bad, {"ops": small}))
         for op, out in zip(ops, outs):
@@ -343,7 +352,7 @@ def replay(payload):
     ops = [tuple(o) for o in payload["case"]["ops"]]
     outs, t = BX.run_history(ops)
     bad, cps, history = oracle(ops, outs)
-    bad = bad or refusal_unchanged(ops, outs) or old_roots_readable(t, history)
+    bad = bad or refusal_unchanged(ops, outs) or old_roots_readable(t, history) or subclass_check(ops, outs)
     if not bad and cps:
         terms = [f"({clist(['(' + cb(k) + ', ' + cb(v) + ')' for k, v in sorted(m.items())])}, {cobs(root)})" for m, root in cps]
         ms, es, _ = C.eval_cases("C12", "replay", BX.IMPORTS, "c12_spec_root", "list (bytes * bytes)", terms, shard=60)
